@@ -1,5 +1,5 @@
 import PvModel.Generated.Core
-/-! Pin obligation for C02/C04/C06/C11 and the loop: what is left of agent creation (`_generate_agents` / `_init_population` are translated: R11) and the configuration / agent records.
+/-! Pin obligation for C02/C04/C06/C11 and the loop: what is left of agent creation (`_generate_agents` / `_init_population` are translated: R11; `OptimizationAbstract.__init__`: R00) and the configuration / agent records.
 These functions are modelled by hand (not translated by `tools/py2lean.py`) and tied to the code by the correspondence suites. The regenerated
 facts carry a fingerprint of their source text (docstrings / comments removed, `ast.unparse` under /venv's Python); this theorem says the text is
 the one the model was last validated against. A change of any of them breaks it — the check then searches for a failing input; if none is found
@@ -13,8 +13,7 @@ def expected : List (String × String) := [
       ("models.py:Agent", "4946ab827122aa01"),
       ("helpers.py:calculate_fitness", "41b6573c66e3b89c"),
       ("helpers.py:average_fitness", "36e2d2c1c4591bca"),
-      ("helpers.py:get_pool_executor", "a08feac481aab369"),
-      ("abstract.py:OptimizationAbstract.__init__", "075ac9df932c907a")]
+      ("helpers.py:get_pool_executor", "a08feac481aab369")]
 
 theorem source_pins_unchanged : expected.all (fun e => pins.contains e) = true := by decide
 
